@@ -107,8 +107,21 @@ func (e *Engine) callFunction(s *State, f *Frame, x *ssa.Call, callee *ssa.Funct
 		return true
 	}
 	if inModule(callee) {
-		if ct := e.bound[callee]; ct != nil && callee != e.curFn {
-			f.env[x] = e.applyContract(s, f, x, callee, ct, args, probe)
+		if ct := e.bound[callee]; ct != nil && callee != e.curFn && !ct.Flags["inline-at-calls"] {
+			r := e.applyContract(s, f, x, callee, ct, args, probe)
+			f.env[x] = r
+			// results of contracted calls are addressable from ghost initialisers: callresult("pkg.Recv.Func", n)
+			if f.callResults == nil {
+				f.callResults = map[string]Value{}
+			}
+			k := 0
+			for {
+				if _, ok := f.callResults[fmt.Sprintf("%s#%d", funcKey(callee), k)]; !ok {
+					break
+				}
+				k++
+			}
+			f.callResults[fmt.Sprintf("%s#%d", funcKey(callee), k)] = r
 			f.ip++
 			return true
 		}
@@ -277,11 +290,35 @@ func (e *Engine) applyContract(s *State, f *Frame, x ssa.Instruction, callee *ss
 	}
 	c.oldHeap = oldHeap
 	c.oldEnv = nil
+	before := len(s.pc)
 	for _, cl := range ct.Ensures {
-		if !e.clauseApplies(cl) {
-			continue
+		if !e.clauseApplies(cl) || cl.Tag == "local" {
+			continue // `ensures[local]`: proved for the function itself, not exported to callers
 		}
 		s.assume(c.evalBool(cl.Expr))
+	}
+	// a postcondition that fixes a fresh result scalar to a constant (typically len(res) == 5) is propagated
+	// into the result value, so that later loops and recursive specs over it run with a concrete bound
+	sub := map[*Term]*Term{}
+	for _, h := range s.pc[before:] {
+		if h.Op == "=" {
+			a, b := h.Args[0], h.Args[1]
+			if a.IsConst() && b.Op == "var" && strings.HasPrefix(b.Name, "ret.") {
+				sub[b] = a
+			} else if b.IsConst() && a.Op == "var" && strings.HasPrefix(a.Name, "ret.") {
+				sub[a] = b
+			}
+		}
+	}
+	if len(sub) > 0 {
+		for i := range resv {
+			resv[i] = substValue(resv[i], sub)
+			if sl, ok := resv[i].(VSlice); ok && sl.Obj != nil {
+				if sq, ok := s.heap[sl.Obj].(*Seq); ok {
+					s.heap[sl.Obj] = substSeq(sq, sub)
+				}
+			}
+		}
 	}
 	switch n {
 	case 0:
@@ -325,6 +362,7 @@ type caseSel struct {
 }
 
 func (e *Engine) verifyFunctionCase(fn *ssa.Function, ct *Contract, mode Mode, sel *caseSel) (err error) {
+	e.seqArrays = map[string][]*Term{}
 	e.mode = mode
 	e.curFn = fn
 	e.curC = ct
@@ -479,11 +517,22 @@ func (e *Engine) atReturn(s *State, f *Frame, res []Value, pos token.Pos) {
 			e.emit(s, "lemma", fmt.Sprintf("%d", k), c.evalBool(cl.Expr), pos, cl.Src)
 		}
 	}
+	// proved lemmas instantiated on parameters and results
+	for _, cl := range ct.UsesAtRet {
+		s.assume(c.evalBool(cl.Expr))
+	}
 	c.names = nil
 	if len(ct.Ghosts) > 0 {
 		// ghost results are the function's own locals of that name
 		gn := map[string]nameRef{}
 		for _, g := range ct.Ghosts {
+			if g.Init != nil {
+				c.names = localNames
+				c.frame = f
+				gn[g.Name] = nameRef{v: c.eval(g.Init)}
+				c.names = nil
+				continue
+			}
 			if v, ok := localNames[g.Name]; ok {
 				gn[g.Name] = v
 			} else {
@@ -786,6 +835,10 @@ func fatalf(format string, a ...interface{}) {
 // proveLemma emits the obligation of a top-level lemma: its body for arbitrary integer parameters,
 // with the opaque definitions it names revealed.
 func (e *Engine) proveLemma(lm *Lemma) (err error) {
+	if lm.Axiom {
+		e.note("AXIOM " + lm.Name + " (assumed, not proved): " + lm.Src)
+		return nil
+	}
 	defer func() {
 		if r := recover(); r != nil {
 			if ee, ok := r.(execError); ok {
